@@ -323,13 +323,22 @@ class SymInt(object):
     def __divmod__(self, o):
         return (self // o, self % o)
 
-    def __truediv__(self, o):
-        raise EngineError("true division of a symbolic integer (floats are not modelled)")
+    # Floats are not modelled.  A float taken from a symbolic integer continues the path on the path's representative
+    # value only and marks the path non-exhaustive: the check can then still find (and replay) a violation on the
+    # representative, but can never report success (exit 3 "inconclusive" unless a violation reproduces).
+    def _float_escape(self, what):
+        c = cur()
+        c.nonexhaustive = "%s of a symbolic integer: floats are not modelled, path continued on its representative value only" % what
+        return self.cv
 
-    __rtruediv__ = __truediv__
+    def __truediv__(self, o):
+        return self._float_escape("true division") / cv_of(o)
+
+    def __rtruediv__(self, o):
+        return cv_of(o) / self._float_escape("true division")
 
     def __float__(self):
-        raise EngineError("float() of a symbolic integer (floats are not modelled)")
+        return float(self._float_escape("float()"))
 
     def __lshift__(self, o):
         if is_sym(o):
